@@ -647,6 +647,13 @@ def compare_function(r, rule, qual, spec_src, what, fname=None, eq=None, spec_mo
     spec = subst(spec, canon_params(sp))
     eq = eq or Equiv(rewrites=std_rewrites())
     eq.bind(r, cls=s.func.cls)
+    # defaults the specification declares are part of it: f(x) must mean the same call as in the specification
+    for k, (cp, spp) in enumerate(zip(s.params, sp.params)):
+        if spp[1] is not None and is_const(strip(spp[1])):
+            same = cp[1] is not None and strip_all(cp[1]) == strip_all(spp[1])
+            if not same:
+                r.rep.ob(rule, qual, False, f"parameter '{cp[0]}' has the default of the specification", where_of(r.P, s.func, s.func.node), expected=f"{spp[0]}={show(spp[1], 30)}",
+                         found=f"{cp[0]}={show(cp[1], 30) if cp[1] is not None else '<required>'}", key=f"{key} default {k}")
     alt = None
     if s.events_of("assert"):
         def alt():
